@@ -78,6 +78,36 @@ def cases(draw, tier="quick"):
     return {"spec": spec, "cfg": cfg, "enum_rank": rank}
 
 
+METHOD_NAMES = ["clone", "to_owned", "to_string", "default", "as_ref", "fmt", "eq", "cmp", "hash", "borrow", "len", "count",
+                "try_into", "type_id", "nth", "last"]
+
+
+def fixed_cases(tier):
+    """Method-like names: every function-like feature in turn is given the name of a prelude / iterator trait method
+    while all other features are on with their defaults (the derive's own cross-calls - iterator -> next / next_back,
+    Debug / Display -> as_str, trait forms -> inherent forms - must keep calling the user's item, by path)."""
+    out = []
+    shapes = [("u8", [0, 1, 2, 3, 4]), ("i16", [-3, -2, 5, 6, 9])]
+    k = 0
+    for r, vals in shapes:
+        for f in E.FN_FEATURES:
+            for j in range(3 if tier == "quick" else len(METHOD_NAMES)):
+                nm = METHOD_NAMES[(k + j * 5) % len(METHOD_NAMES)]
+                spec = {"repr": r, "vis": "pub", "ident": "E", "enum_attrs": [],
+                        "variants": [{"ident": "V%d" % i, "disc": str(v)} for i, v in enumerate(vals)]}
+                feats = []
+                for g in E.ALL_FEATURES:
+                    ps = []
+                    if g == f:
+                        ps = [["name", nm], ["vis", "pub"]]
+                    if g == "iter" and (k + j) % 2 == 0:
+                        ps.append(["mode", "next_and_back"])
+                    feats.append({"f": g, "params": ps})
+                out.append({"spec": spec, "cfg": {"feats": feats, "groups": [len(feats)], "pos": ["pre"]}, "enum_rank": 3})
+            k += 1
+    return out
+
+
 def item_table(spec, cfg, enum_rank):
     """[(kind, feature, name, rank, use_expr_template)] for every item the user requested."""
     ident = spec["ident"]
